@@ -18,7 +18,12 @@ MANIFEST = dict(
          "repeating the call until done gives the messages, result and final scanner state of one uninterrupted call with the same "
          "partition), the invariant behind it (suspended state = resume point of the uninterrupted run), wrappers_funnel and "
          "entry_points_agree (scanner-level entry points after any history = rules-level entry points; uses C10's theorem, i.e. the "
-         "code with the C10 fixes). partial: not-ready answered to a call made by RULE EVALUATION is refuted (kernel-checked witness, "
+         "code with the C10 fixes); place_operators_use_absolute_offsets + partition_invariant_matches/operators + "
+         "block_loop_partition_invariant: every place-dependent string operator is a function of base+offset, and any partition "
+         "(also with non-contiguous bases) that cuts no occurrence collects the same absolute matches, messages and result as one block. "
+         "The tie compares clean partitions with yr_rules_scan_mem of the same bytes, and checks the resource protocol of every entry "
+         "point (caller's descriptor open / same offset / rescannable, no descriptor leak, buffer and file untouched) for success, "
+         "CALLBACK_ABORT and CALLBACK_ERROR. partial: not-ready answered to a call made by RULE EVALUATION is refuted (kernel-checked witness, "
          "finding F27: the scan succeeds with a different verdict) and stays a known finding. The tie runs every subset of "
          "not-ready positions (2^N, N <= 12) on the real scanner and on the compiled model and compares every outcome; entry points are "
          "compared pairwise and with the model. Sampled only: buffers, partitions and rule sets are generated.",
@@ -86,13 +91,54 @@ def small_rules(r, data):
     return sl.RuleSet(rules, imports)
 
 
+def place_task(r):
+    """a text buffer, rules made of the place-dependent string operators and offset-dependent builtins around real
+    occurrences, and a partition that does not cut any occurrence (so that it must agree with yr_rules_scan_mem of the same
+    bytes); sometimes the same blocks at bases that are NOT contiguous (then only the model is the reference)"""
+    while True:
+        data = c10.rand_text(r, False) + r.choice([b" MARKER-1234 ", b"xyz"]) + c10.rand_text(r, False)
+        whole = sl.Input(data)
+        rules = []
+        nstr = [0]
+
+        def add(cond, ns=0, flags="", strings=()):
+            rules.append(dict(ns=ns, flags=flags, strings=list(strings), cond=cond))
+            nstr[0] += len(strings)
+        c10.place_rules(r, add, lambda: nstr[0], [whole])
+        c10.place_rules(r, add, lambda: nstr[0], [whole])
+        off = r.randrange(len(data))
+        add(("rd", 1, off, data[off]))
+        add(("fseq", len(data)))
+        add(("epdef",))
+        rs = sl.RuleSet(rules, [])
+        strs = rs.all_strings()
+        if sum(1 for s in strs if c10.count_occ(data, s) > 4) == 0:
+            break
+    k = r.randint(2, 5)
+    for _ in range(20):
+        parts = sl.split_parts(r, len(data), k)
+        cuts = [sum(parts[:i]) for i in range(1, len(parts))]
+        occ = [(o, o + len(s)) for s in strs for o, _ in sl.find_literal(s, data)]
+        if not any(a < c < b for c in cuts for a, b in occ):
+            break
+    gap = r.random() < 0.3
+    bases = None
+    if gap:
+        bases, cur = [], r.choice([0, 0, 64])
+        for p in parts:
+            bases.append(cur)
+            cur += p + r.choice([0, 1, 16, 1000])
+    return rs, [whole.with_parts(parts, None, bases), whole]
+
+
 def gen_tasks(r, tier):
     tasks = []       # (kind, ruleset, inputs, flags, extra field)
-    nep, nblk, nev = (40, 90, 10) if tier == "quick" else (1500, 4000, 350)
+    nep, nblk, nev, npl = (40, 70, 10, 60) if tier == "quick" else (1500, 3000, 350, 2500)
     for _ in range(nep):
         ins = gen_inputs(r)
         i = r.randrange(len(ins))
-        tasks.append(("ep", ep_rules(r, ins[i]), [ins[i]], r.choice(c10.FLAGS), "ep=0"))
+        scripts = ["-"] + r.sample(["a0", "a1", "a2", "a5", "a9", "e0", "e1", "e2", "e3", "e6", "e12"], 3)
+        tasks.append(("ep", ep_rules(r, ins[i]), [ins[i]], r.choice(c10.ALLFLAGS), "ep=0 cbs=" + ",".join(scripts)))
     for _ in range(nblk):          # the whole block loop, <= 6 blocks, full rule sets
         pool = c10.gen_pool(r)
         cand = [x for x in pool if len(x.data) >= 1]
@@ -101,7 +147,11 @@ def gen_tasks(r, tier):
         parts = sl.split_parts(r, len(x.data), k)
         avail = [r.random() > 0.05 for _ in parts]
         rs = c10.gen_ruleset(r, pool)
-        tasks.append(("blk", rs, [x.with_parts(parts, avail)], r.choice(c10.FLAGS), "masks=0:%d" % (len(parts) + 1)))
+        tasks.append(("blk", rs, [x.with_parts(parts, avail), sl.Input(x.data, path=x.path)], r.choice(c10.FLAGS),
+                      "masks=0:%d:1" % (len(parts) + 1)))
+    for _ in range(npl):           # place-dependent operators with the evidence in non-first blocks
+        rs, ins = place_task(r)
+        tasks.append(("place", rs, ins, r.choice(c10.FLAGS), "masks=0:%d:1" % min(len(ins[0].parts) + 1, 5)))
     for _ in range(nev):           # block loop + rule evaluation, <= 3 blocks
         data = r.choice([c10.rand_text(r, False) + b"he", sl.synth_pe(0x1010, b"hello")[:r.choice([400, 600])], sl.synth_elf32(0x8048060, b"hehe")])
         k = r.randint(1, 3)
@@ -113,6 +163,9 @@ def gen_tasks(r, tier):
 
 def task_line(cid, t):
     kind, rs, ins, flags, extra = t
+    if extra.startswith("masks=") and extra.count(":") == 2:
+        # sw=1: the partition cuts nothing, so it must agree with yr_rules_scan_mem of the same bytes (decided here, not by the model)
+        extra += " sw=%d" % (1 if ins[0].same_as_whole(rs) else 0)
     return sl.case_line(cid, rs, ins, flags, 0, 1000000, []).replace(" ops= ", " ") + " " + extra
 
 
@@ -169,7 +222,7 @@ def run_body(chk, lres, b, tier, replay, scratch):
     mm = {x.split(" ", 1)[0]: x.split(" ", 1)[1] for x in model if " " in x}
     known = core.known_findings("C13")
     f27 = [k for k in known if k.get("signature", {}).get("not_ready_during") == "rule-evaluation"]
-    stats = {"entry_point_tasks": 0, "entry_point_scans": 0, "mask_tasks": 0, "masks": 0, "masks_with_not_ready_in_evaluation": 0,
+    stats = {"callback_scripts": {}, "whole_buffer_comparisons": 0, "sparse_base_tasks": 0, "entry_point_tasks": 0, "entry_point_scans": 0, "mask_tasks": 0, "masks": 0, "masks_with_not_ready_in_evaluation": 0,
              "interrupted_api_calls": 0, "deviating_masks_known_F27": 0, "blocks_histogram": {}}
     nv = 0
     f17_examples = []
@@ -180,24 +233,41 @@ def run_body(chk, lres, b, tier, replay, scratch):
             continue
         base = {"engine": "entry", "harness": "h_entry", "case": l, "task": kinds.get(cid)}
         if a.startswith("E "):
-            trs = a[2:].split("|")
-            stats["entry_point_tasks"] += 1; stats["entry_point_scans"] += len(trs)
             names = ["rules_scan_mem", "rules_scan_file", "rules_scan_fd", "scanner_scan_mem", "scanner_scan_file", "scanner_scan_fd",
                      "scanner_scan_mem_blocks(single block)", "rules_scan_mem_blocks(single block)"]
-            if len(set(trs)) != 1 and nv < 10:
-                chk.violation("ep_%s.json" % cid, dict(base, kind="entry points disagree", implementation=dict(zip(names, trs)))); nv += 1; found = True
-            elif m is not None and nv < 10:
-                mt = m[2:].split("|")
-                exp = [mt[0], mt[1], mt[1], mt[0], mt[1], mt[1], mt[0], mt[0]]
-                if exp != trs:
-                    chk.violation("epm_%s.json" % cid, dict(base, kind="model-implementation-disagreement (entry points)",
-                                                            implementation=a, model_spec=m)); nv += 1; found = True
+            stats["entry_point_tasks"] += 1
+            msec = {x.split("=", 1)[0]: x.split("=", 1)[1] for x in m[2:].split("^")} if m is not None and m.startswith("E ") else None
+            for sec in a[2:].split("^"):
+                script, body = sec.split("=", 1)
+                if script == "N":
+                    if body != "COULD_NOT_OPEN_FILE,COULD_NOT_OPEN_FILE,COULD_NOT_OPEN_FILE,COULD_NOT_OPEN_FILE;msgs=0;R=ok" and nv < 10:
+                        chk.violation("epn_%s.json" % cid, dict(base, kind="entry points on a missing file / closed descriptor: wrong result, callback or descriptor leak",
+                                                                implementation=body)); nv += 1; found = True
+                    continue
+                full = body.split("|")
+                trs = [x.rsplit(";R=", 1)[0] for x in full]
+                res = [x.rsplit(";R=", 1)[1] for x in full]
+                stats["entry_point_scans"] += len(trs)
+                stats["callback_scripts"][script[0]] = stats["callback_scripts"].get(script[0], 0) + 1
+                if any(x != "ok" for x in res) and nv < 10:
+                    chk.violation("epres_%s_%s.json" % (cid, script), dict(base, kind="resource post-condition of an entry point broken", callback_script=script,
+                                                              implementation=dict(zip(names, res)))); nv += 1; found = True
+                elif len(set(trs)) != 1 and nv < 10:
+                    chk.violation("ep_%s_%s.json" % (cid, script), dict(base, kind="entry points disagree", callback_script=script,
+                                                           implementation=dict(zip(names, trs)))); nv += 1; found = True
+                elif msec is not None and nv < 10:
+                    mt = msec.get(script, "|").split("|")
+                    exp = [mt[0], mt[1], mt[1], mt[0], mt[1], mt[1], mt[0], mt[0]]
+                    if exp != trs:
+                        chk.violation("epm_%s_%s.json" % (cid, script), dict(base, kind="model-implementation-disagreement (entry points)", callback_script=script,
+                                                                implementation=sec, model_spec=msec.get(script))); nv += 1; found = True
             continue
         if not a.startswith("M "):
             chk.violation("bad_%s.json" % cid, dict(base, kind="harness output not understood", implementation=a)); found = True
             continue
         parts = a[2:].split("!")
         ncls = int(parts[0]); classes = parts[1:1 + ncls]; cmap, calls, flags = parts[1 + ncls:4 + ncls]
+        wtrace = parts[4 + ncls][2:] if len(parts) > 4 + ncls and parts[4 + ncls].startswith("W=") else None
         stats["mask_tasks"] += 1; stats["masks"] += len(cmap)
         stats["masks_with_not_ready_in_evaluation"] += flags.count("1")
         stats["interrupted_api_calls"] += sum(int(c, 36) for c in calls)
@@ -218,7 +288,17 @@ def run_body(chk, lres, b, tier, replay, scratch):
                 where = {"error": str(e)}
             chk.violation("mask_model_%s.json" % cid, dict(base, kind="model-implementation-disagreement (interrupted scan)", first_difference=where,
                                                            implementation=a[:3000], model_spec=m[:3000])); nv += 1; found = True
-        # the property itself: every subset ends like the uninterrupted run (mask 0)
+        if not l.split(" in=", 1)[1].split(" ", 1)[0].split(";")[0].count("@") == 0:
+            stats["sparse_base_tasks"] += 1
+        # the property itself (1): a partition that cuts no occurrence gives what yr_rules_scan_mem gives for the same bytes
+        if wtrace is not None and " sw=1" in l:
+            stats["whole_buffer_comparisons"] += 1
+            if classes[int(cmap[0], 36)] != wtrace and nv < 10:
+                chk.violation("whole_%s.json" % cid, dict(base, kind="multi-block scan differs from yr_rules_scan_mem of the same bytes "
+                              "(no occurrence, integer read or header is cut by the partition)", implementation=classes[int(cmap[0], 36)],
+                              yr_rules_scan_mem=wtrace, partition=l.split(" in=", 1)[1].split(" ", 1)[0].split(";")[0].split("~")[1]))
+                nv += 1; found = True
+        # the property itself (2): every subset ends like the uninterrupted run (mask 0)
         ref = cmap[0]
         for k in range(len(cmap)):
             if cmap[k] != ref or calls[k] == "z":
